@@ -615,3 +615,73 @@ Lemma example_iterator :
   iter_records example_chain_msg (mkHeader 4660 33152 1 2 0 0) 19 =
   Ok ([mkRR 0 [x61; x2e] 1 5 60 (RD_Name 5 [x62; x2e]); mkRR 0 [x62; x2e] 1 1 30 (RD_A 84281096)], None).
 Proof. vm_compute. reflexivity. Qed.
+
+(* ================================================================ the cursor-style reader, end to end *)
+(* One record of a message described semantically, read with record_header::<InlineName>() followed
+   by the typed record_data::<D>(): the header call returns the text of the owner's labels and a
+   marker with the record's TYPE, CLASS, TTL, RDLENGTH, offsets and section; the data call returns
+   exactly the record's value; and the reader stands at the next record. *)
+Section R.
+  Variable msg : list byte.
+  Variables (qs : list squestion) (rs : list srecord) (nq an ns ar e1 e2 : N).
+  Hypothesis Hlen : lenN msg <= 65535.
+  Hypothesis H12 : 12 <= lenN msg.
+  Hypothesis Hq : questions_stand msg 12 qs e1.
+  Hypothesis Hr : records_stand msg e1 rs e2.
+  Hypothesis Hcq : lenN qs = nq.
+  Hypothesis Hcnt : lenN rs = an + ns + ar.
+  Hypothesis Bnq : nq <= 65535.
+  Hypothesis Ban : an <= 65535.
+  Hypothesis Bns : ns <= 65535.
+  Hypothesis Bar : ar <= 65535.
+
+  Theorem reader_record_end_to_end :
+    exists qends rends,
+      parsed msg nq an ns ar (qitems 12 qs qends) (ritems e1 rs rends) e1 e2 /\ rstands msg e1 rs rends /\
+      forall k p x e a r hw,
+        getN (ritems e1 rs rends) k = Some (ritem p x e) -> record_stands msg p x e -> sr_data x = SVal a ->
+        RState msg nq an ns ar (qitems 12 qs qends) (ritems e1 rs rends) e2 r (nq + k) hw ->
+        exists r1 mk r2,
+          rd_header_n msg Inline r = (r1, Ok (OHeaderN (text_of_labels (sr_labels x)) mk)) /\
+          m_off mk = p /\ m_rtype mk = sr_type x /\ m_rclass mk = sr_class x /\ m_ttl mk = sr_ttl x /\
+          m_rdlen mk = lenN (rdata_enc a) /\ m_section mk = section_of (lin nq an ns ar) k /\
+          rd_data msg (sr_type x) mk r1 = (r2, Ok (ORData (rdata_val a))) /\
+          RState msg nq an ns ar (qitems 12 qs qends) (ritems e1 rs rends) e2 r2 (nq + k + 1) (N.max hw (nq + k + 1)).
+  Proof.
+    destruct (message_parsed msg nq an ns ar qs rs e1 e2 Hlen H12 Hq Hr Hcq Hcnt Bnq Ban Bns Bar)
+      as (qends & rends & Hp & L1 & L2 & Sq & Sr).
+    exists qends, rends. split; [exact Hp|]. split; [exact Sr|].
+    intros k p x e a r hw Hg Hx Hd Hs.
+    destruct (header_flavours_any msg nq an ns ar _ _ e1 e2 Hp r (nq + k) hw (ritem p x e) Hs ltac:(lia)
+                ltac:(replace (nq + k - nq) with k by lia; exact Hg)) as (_ & _ & Hn & _).
+    destruct (Hn Inline eq_refl) as (r1 & ls & en & Es & E1 & Hmid). cbv zeta in E1.
+    (* the text: the spec's labels at p are the record's labels *)
+    pose proof Hx as (rr & pre & post & (Hex & Hres & _) & _).
+    cbn [a_start ritem] in Es. apply spec_name_accept_iff in Es. destruct Es as [Hex' _].
+    pose proof (expands_det' msg _ _ _ _ Hex _ _ _ Hex') as Hls. subst ls.
+    set (mk := mk_of nq an ns ar (qitems 12 qs qends) (ritems e1 rs rends) e2 (nq + k) (ritem p x e)) in *.
+    (* the typed data *)
+    pose proof Hmid as (Hw1 & Hp1 & Hd1 & Hend & Hin & tr' & Esr & Hi').
+    destruct (standing_record_decodes msg p x e (r_cur r1) a Hx Hd Hw1 Hp1) as (m & Em & Edm).
+    assert (Hrd : m_rdlen mk = lenN (rdata_enc a)) by (unfold mk, mk_of; cbn [m_rdlen ritem a_rdlen]; rewrite Hd; reflexivity).
+    assert (E2 : rd_data msg (sr_type x) mk r1 =
+                 (with_tr (with_cur r1 (c_set_pos (r_cur r1) e)) tr', Ok (ORData (rdata_val a)))).
+    { unfold rd_data. cbn [ritem a_rdlen] in Em. rewrite Hd in Em. cbn [sdata_enc] in Em. rewrite Hrd, Em.
+      assert (Hpos : negb (pos (r_cur r1) =? rdata_pos mk) = false).
+      { unfold rdata_pos, mk, mk_of. cbn [m_type_off]. unfold TYPE_TO_RDATA_OFFSET. rewrite Hp1, N.eqb_refl. reflexivity. }
+      rewrite Hpos, Hd1. unfold after_data, run, mbind, mret. rewrite Edm. cbn [with_cur r_cur r_tr pos c_set_pos].
+      assert (He : e = P (qitems 12 qs qends) (ritems e1 rs rends) e2 (nq + k + 1)).
+      { rewrite <- Hend. destruct Hx as (r0 & _ & _ & _ & _ & _ & _ & _ & _ & _ & _ & ->). cbn [ritem a_type_off a_rdlen]. lia. }
+      unfold mk, mk_of. cbn [m_section]. rewrite He, Esr. reflexivity. }
+    exists r1, mk, (with_tr (with_cur r1 (c_set_pos (r_cur r1) e)) tr').
+    split; [exact E1|].
+    assert (HP : P (qitems 12 qs qends) (ritems e1 rs rends) e2 (nq + k) = p).
+    { unfold P, items. rewrite getN_app_r by lia. replace (nq + k - lenN (qitems 12 qs qends)) with k by lia. rewrite Hg. reflexivity. }
+    split; [unfold mk, mk_of; cbn [m_off]; exact HP|].
+    repeat (split; [reflexivity|]). split; [exact Hrd|]. split; [unfold mk, mk_of; cbn [m_section]; f_equal; lia|].
+    split; [exact E2|].
+    assert (He : e = P (qitems 12 qs qends) (ritems e1 rs rends) e2 (nq + k + 1)).
+    { rewrite <- Hend. destruct Hx as (r0 & _ & _ & _ & _ & _ & _ & _ & _ & _ & _ & ->). cbn [ritem a_type_off a_rdlen]. lia. }
+    split; [apply whole_set_pos; exact Hw1|]. split; [cbn [r_cur with_tr with_cur pos c_set_pos]; exact He|]. split; [exact Hi'|exact Hd1].
+  Qed.
+End R.
